@@ -1661,7 +1661,12 @@ isal_deflate(struct isal_zstream *stream)
                 in_size = stream->avail_in + buffered_size;
                 out_size = stream->total_out;
 
-        } while (internal && stream->avail_in > 0 && stream->avail_out > 0 &&
+                /* Input that was only buffered while an earlier flush was still being
+                 * drained must be flushed (or finished) in this call as well */
+        } while (internal &&
+                 (stream->avail_in > 0 ||
+                  (buffered_size > 0 && (flush_type != NO_FLUSH || end_of_stream))) &&
+                 stream->avail_out > 0 &&
                  (in_size_initial != in_size || out_size_initial != out_size));
 
         /* Buffer history if data was pulled from the external buffer and future
